@@ -355,4 +355,213 @@ theorem openai_cmpl_stream_equiv (usage : Bool) (items : List (Item GenMsg)) :
       obtain ⟨e1, e3⟩ := asGen_err e
       simp [e1, e3, msgsOf_cons_err, oaText, oaDones, OaEv.text?, OaEv.isDone]
 
+
+/-! ### shape of a protocol-respecting native chat / generate stream -/
+
+theorem chatStream_shape_ok (parse : Bytes → List Call) (tools : Bool) (init : List Chunk) (l : Chunk)
+    (hnd : NoneDone init) (hl : l.done = true) :
+    ∃ (pre : List ChatMsg) (m : ChatMsg), chatStream parse tools (init ++ [l]) .ok = pre.map Item.msg ++ [Item.msg m]
+      ∧ (∀ x ∈ pre, x.info.done = false) ∧ m.info.done = true := by
+  obtain ⟨sb', idx', happ⟩ := chatCallback_append parse tools init [l] [] 0
+  obtain ⟨m, hm, hdone⟩ := chatCallback_done_chunk parse tools l sb' idx' hl
+  refine ⟨chatCallback parse tools init [] 0, m, ?_, chatCallback_nonfinal parse tools init [] 0 hnd, hdone⟩
+  simp [chatStream, chatChan, endItems, happ, hm]
+
+theorem genStream_shape_ok (raw : Bool) (pl : Nat) (init : List Chunk) (l : Chunk)
+    (hnd : NoneDone init) (hl : l.done = true) :
+    ∃ (pre : List GenMsg) (m : GenMsg), genStream raw pl (init ++ [l]) .ok = pre.map Item.msg ++ [Item.msg m]
+      ∧ (∀ x ∈ pre, x.info.done = false) ∧ m.info.done = true := by
+  refine ⟨genCallback raw pl init [], genMsgOf raw pl ([] ++ texts init ++ l.content) l, ?_,
+    genCallback_nonfinal raw pl init [] hnd, by simp [genMsgOf, chunkInfo, hl]⟩
+  simp [genStream, genChan, endItems, genCallback_append, genCallback]
+
+theorem filter_done_nonfinal {α : Type} (done : α → Bool) (pre : List α) (h : ∀ x ∈ pre, done x = false) :
+    pre.filter done = [] := by
+  apply List.filter_eq_nil_iff.mpr
+  intro x hx; simp [h x hx]
+
+theorem oaChatStream_append (usage : Bool) (a b : List (Item ChatMsg)) (sent : Bool) :
+    ∃ s', oaChatStream usage (a ++ b) sent = oaChatStream usage a sent ++ oaChatStream usage b s' := by
+  induction a generalizing sent with
+  | nil => exact ⟨sent, by simp [oaChatStream]⟩
+  | cons it rest ih =>
+    obtain ⟨s', h⟩ := ih (sent || !(asChat it).calls.isEmpty)
+    exact ⟨s', by simp [oaChatStream, h]⟩
+
+theorem oaCmplStream_append (usage : Bool) (a b : List (Item GenMsg)) :
+    oaCmplStream usage (a ++ b) = oaCmplStream usage a ++ oaCmplStream usage b := by
+  induction a with
+  | nil => simp [oaCmplStream]
+  | cons it rest ih => simp [oaCmplStream, ih]
+
+theorem oaTail_last (u : Bool) (m : Info) (pre : List OaEv) : (pre ++ oaTail u m).getLast? = some OaEv.done := by
+  cases u <;> simp [oaTail]
+
+/-- **A successful run ends, on the OpenAI streaming endpoints, with exactly one `[DONE]`** which is
+    the last event (preceded by the usage chunk when `include_usage` is set). -/
+theorem openai_stream_one_done (parse : Bytes → List Call) (tools usage raw : Bool) (pl : Nat)
+    (cs : List Chunk) (h : RunnerOK cs .ok) :
+    (oaDones (oaChatStream usage (chatStream parse tools cs .ok) false) = 1
+      ∧ (oaChatStream usage (chatStream parse tools cs .ok) false).getLast? = some OaEv.done)
+    ∧ (oaDones (oaCmplStream usage (genStream raw pl cs .ok)) = 1
+      ∧ (oaCmplStream usage (genStream raw pl cs .ok)).getLast? = some OaEv.done) := by
+  cases h with
+  | done init l hnd hl =>
+    constructor
+    · obtain ⟨pre, m, hs, hpre, hm⟩ := chatStream_shape_ok parse tools init l hnd hl
+      refine ⟨?_, ?_⟩
+      · rw [(openai_chat_stream_equiv usage _ false).2.2, hs, msgsOf_append, msgsOf_map_msg]
+        simp [msgsOf, Item.msg?, List.filter_append, filter_done_nonfinal _ pre hpre, hm]
+      · rw [hs]
+        obtain ⟨s', happ⟩ := oaChatStream_append usage (pre.map Item.msg) [Item.msg m] false
+        rw [happ]
+        obtain ⟨f, hstep⟩ := oaChatStream_cons usage (Item.msg m) [] s'
+        rw [hstep]
+        simp only [asChat, hm, ↓reduceIte, oaChatStream, List.append_nil, ← List.append_assoc]
+        exact oaTail_last _ _ _
+    · obtain ⟨pre, m, hs, hpre, hm⟩ := genStream_shape_ok raw pl init l hnd hl
+      refine ⟨?_, ?_⟩
+      · rw [(openai_cmpl_stream_equiv usage _).2, hs, msgsOf_append, msgsOf_map_msg]
+        simp [msgsOf, Item.msg?, List.filter_append, filter_done_nonfinal _ pre hpre, hm]
+      · rw [hs, oaCmplStream_append]
+        obtain ⟨f, u, hstep⟩ := oaCmplStream_cons usage (Item.msg m) []
+        rw [hstep]
+        simp only [asGen, hm, ↓reduceIte, oaCmplStream, List.append_nil, ← List.append_assoc]
+        exact oaTail_last _ _ _
+
+/-- the OpenAI stream writers never emit an error object (pinned behaviour) -/
+theorem oaChatStream_no_error (usage : Bool) (items : List (Item ChatMsg)) (sent : Bool) :
+    ∀ ev ∈ oaChatStream usage items sent, ev.isError = false := by
+  induction items generalizing sent with
+  | nil => intro ev h; simp [oaChatStream] at h
+  | cons it rest ih =>
+    intro ev h
+    obtain ⟨f, hstep⟩ := oaChatStream_cons usage it rest sent
+    rw [hstep] at h
+    simp only [List.mem_append, List.mem_singleton] at h
+    rcases h with (rfl | h) | h
+    · rfl
+    · cases hd : (asChat it).info.done <;> cases usage <;> simp [hd, oaTail] at h <;>
+        (try rcases h with rfl | rfl) <;> (try subst h) <;> rfl
+    · exact ih _ ev h
+
+theorem oaCmplStream_no_error (usage : Bool) (items : List (Item GenMsg)) :
+    ∀ ev ∈ oaCmplStream usage items, ev.isError = false := by
+  induction items with
+  | nil => intro ev h; simp [oaCmplStream] at h
+  | cons it rest ih =>
+    intro ev h
+    obtain ⟨f, u, hstep⟩ := oaCmplStream_cons usage it rest
+    rw [hstep] at h
+    simp only [List.mem_append, List.mem_singleton] at h
+    rcases h with (rfl | h) | h
+    · rfl
+    · cases hd : (asGen it).info.done <;> cases usage <;> simp [hd, oaTail] at h <;>
+        (try rcases h with rfl | rfl) <;> (try subst h) <;> rfl
+    · exact ih ev h
+
+/-- **F17c as a theorem of the (pinned) model: a failing run is invisible on the OpenAI streaming
+    endpoints** — for EVERY output and failure point the SSE stream contains neither an error object
+    nor `[DONE]`, although the native stream ends with the error (`chat_error`, `generate_error`). -/
+theorem openai_stream_failure_swallowed (parse : Bytes → List Call) (tools usage raw : Bool) (pl : Nat)
+    (cs : List Chunk) (m : Bytes) (h : RunnerOK cs (.err m)) :
+    (oaDones (oaChatStream usage (chatStream parse tools cs (.err m)) false) = 0
+      ∧ ∀ ev ∈ oaChatStream usage (chatStream parse tools cs (.err m)) false, ev.isError = false)
+    ∧ (oaDones (oaCmplStream usage (genStream raw pl cs (.err m))) = 0
+      ∧ ∀ ev ∈ oaCmplStream usage (genStream raw pl cs (.err m)), ev.isError = false) := by
+  cases h with
+  | fail cs m hnd =>
+    refine ⟨⟨?_, oaChatStream_no_error _ _ _⟩, ⟨?_, oaCmplStream_no_error _ _⟩⟩
+    · rw [(openai_chat_stream_equiv usage _ false).2.2]
+      simp only [chatStream, chatChan]
+      rw [msgsOf_chan, filter_done_nonfinal _ _ (chatCallback_nonfinal parse tools cs [] 0 hnd)]
+      rfl
+    · rw [(openai_cmpl_stream_equiv usage _).2]
+      simp only [genStream, genChan]
+      rw [msgsOf_chan, filter_done_nonfinal _ _ (genCallback_nonfinal raw pl cs [] hnd)]
+      rfl
+
+/-! ## Witnesses of the defects the model shares with the code (all checked by the kernel) -/
+
+def sA : Bytes := [97]      -- "a"
+def sB : Bytes := [98]      -- "b"
+def sObj : Bytes := [123, 125]  -- "{}"
+def sHi : Bytes := [104, 105]   -- "hi"
+def sBoom : Bytes := [98, 111, 111, 109]  -- "boom"
+
+def callA : Call := ⟨sA, sObj, 0⟩
+def callB : Call := ⟨sB, sObj, 0⟩
+
+/-- `{"name":"a","arguments":{}}` -/
+def pieceA : Bytes := [123, 34, 110, 97, 109, 101, 34, 58, 34, 97, 34, 44, 34, 97, 114, 103, 117, 109, 101, 110, 116, 115, 34, 58, 123, 125, 125]
+/-- `{"name":"b",` -/
+def pieceB1 : Bytes := [123, 34, 110, 97, 109, 101, 34, 58, 34, 98, 34, 44]
+/-- `"arguments":{}}` -/
+def pieceB2 : Bytes := [34, 97, 114, 103, 117, 109, 101, 110, 116, 115, 34, 58, 123, 125, 125]
+
+/-- the values of the real `parseToolCalls` on the accumulated texts of the F17 run (observed by the
+    harness on every run: the corpus contains this output) -/
+def parseF17 (s : Bytes) : List Call :=
+  if s = pieceA ++ pieceB1 then [callA]
+  else if s = pieceA ++ pieceB1 ++ pieceB2 then [callA, callB]
+  else if s = pieceA then [callA]
+  else []
+
+def nd (b : Bytes) : Chunk := ⟨b, false, 0, 0, 0⟩
+def fin : Chunk := ⟨[], true, 0, 5, 7⟩
+
+/-- **F17a**: the output `{"name":"a",…}{"name":"b",` | `"arguments":{}}` streams `[a]` and loses
+    `b`; the same chunks with `stream:false` (and the unsplit output when streamed) give `[a,b]`. -/
+theorem F17a_split_loses_call :
+    ((msgsOf (chatStream parseF17 true [nd (pieceA ++ pieceB1), nd pieceB2, fin] .ok)).map (·.calls)).flatten = [callA]
+    ∧ (chatOnce parseF17 true [nd (pieceA ++ pieceB1), nd pieceB2, fin] .ok).toOption.map (·.calls) = some [callA, callB]
+    ∧ ((msgsOf (chatStream parseF17 true [nd (pieceA ++ pieceB1 ++ pieceB2), fin] .ok)).map (·.calls)).flatten
+        = [callA, { callB with index := 1 }]
+    ∧ ¬ NoEarlyParse parseF17 [nd (pieceA ++ pieceB1), nd pieceB2] := by
+  decide
+
+/-- **F17b**: even on a split where the guard holds, the streamed calls are indexed 0,1 and the
+    non-streamed ones 0,0. -/
+theorem F17b_index_mismatch :
+    ((msgsOf (chatStream parseF17 true [nd (pieceA ++ pieceB1 ++ pieceB2), fin] .ok)).map
+        (fun m => m.calls.map (·.index))).flatten = [0, 1]
+    ∧ (chatOnce parseF17 true [nd (pieceA ++ pieceB1 ++ pieceB2), fin] .ok).toOption.map
+        (fun m => m.calls.map (·.index)) = some [0, 0]
+    ∧ NoEarlyParse parseF17 [nd (pieceA ++ pieceB1 ++ pieceB2)] := by
+  decide
+
+/-- **F17c**: runner fails after one chunk: the native stream ends with the error, the OpenAI stream
+    ends with an EMPTY delta chunk — no error object, no `[DONE]`. -/
+theorem F17c_openai_stream_error_swallowed :
+    chatStream parseF17 false [nd (sHi)] (.err (sBoom))
+      = [.msg ⟨sHi, [], ⟨true, false, [], 0, 0⟩⟩, .err (sBoom)]
+    ∧ oaChatStream true (chatStream parseF17 false [nd (sHi)] (.err (sBoom))) false
+      = [.chunk (sHi) [] none, .chunk [] [] none] := by
+  decide
+
+/-- **F17d**: `Completion` returns nil without a done chunk: the native stream has no terminal item
+    (and with tools the buffered text is never sent). -/
+theorem F17d_silent_end_no_final :
+    ¬ OneFinal (fun m : GenMsg => m.info.done) (genStream false 3 [nd (sHi)] .ok)
+    ∧ chatStream parseF17 true [nd (sHi)] .ok = []
+    ∧ (chatOnce parseF17 true [nd (sHi)] .ok).toOption.map (·.content) = some (sHi) := by
+  decide
+
+/-! ## Non-vacuity: the hypotheses are met by non-trivial concrete values -/
+
+example : RunnerOK [nd ([72, 101, 108]), nd ([108, 111]), fin] .ok :=
+  RunnerOK.done [nd ([72, 101, 108]), nd ([108, 111])] fin (by decide) rfl
+
+example : RunnerOK [nd ([72, 101, 108])] (.err (sBoom)) := RunnerOK.fail _ _ (by decide)
+
+example : SameOutput [nd ([72, 101, 108]), nd ([108, 111]), fin] [nd ([72]), nd ([101, 108, 108, 111]), nd [], fin]
+    ∧ [nd ([72, 101, 108]), nd ([108, 111]), fin] ≠ [nd ([72]), nd ([101, 108, 108, 111]), nd [], fin] := by
+  decide
+
+/-- the guard of `tools_equiv_partial` holds on a split of a real tool-call output into three
+    chunks, and the conclusion is about a non-empty call list -/
+example : NoneDone [nd (pieceA ++ pieceB1 ++ pieceB2)] ∧ NoEarlyParse parseF17 [nd (pieceA ++ pieceB1 ++ pieceB2)]
+    ∧ parseF17 (texts ([nd (pieceA ++ pieceB1 ++ pieceB2)] ++ [fin])) = [callA, callB] := by
+  decide
+
 end OllamaVerif.C17
